@@ -229,6 +229,42 @@ def pipe_verdicts(cx, v, results, cases, pid):
     cx.nonconforming = [n for n in cx.nonconforming if False]
 
 
+def history_programs(kind, other):
+    """Every program 'three single-handler building calls interleaved with two firings of one event kind through
+    the pipeline entry point' over the palette {handles-only-<kind>, handles-something-else}: what a cache or
+    any other hidden per-kind state in the pipeline would need (the state graph cannot tell such histories apart)."""
+    progs = []
+    types = [kind, other]
+    def fire(size):
+        # an exception forwarded past the last handler would close the channel: exception handlers consume it
+        return {"op": "Fire", "k": kind, "entry": "pl", "from": 0, "stop": list(range(1, size + 1)) if kind == "X" else [], "pan": 0, "pv": "err"}
+
+    def builds(size):
+        out = []
+        for t in types:
+            ref = [{"new": True, "t": t, "i": 1}]
+            out.append({"op": "AddFirst", "refs": ref})
+            out.append({"op": "AddLast", "refs": ref})
+            for pos in range(0, size + 1):
+                out.append({"op": "AddHandler", "pos": pos, "refs": ref})
+        return out
+    import itertools
+    for slots in itertools.combinations(range(5), 2):
+        def rec(i, size, acc):
+            if i == 5:
+                progs.append(acc)
+                return
+            if i in slots:
+                rec(i + 1, size, acc + [fire(size)])
+            else:
+                for b in builds(size):
+                    rec(i + 1, size + 1, acc + [b])
+        if slots[0] == 0:
+            continue  # a firing on the empty pipeline tells nothing
+        rec(0, 0, [])
+    return progs
+
+
 def check_pipeline(cx, pid):
     cx.module = "pipe"
     cx.build()
@@ -250,6 +286,24 @@ def check_pipeline(cx, pid):
     cx.edges_total += total
     cx.edges_walked += planned if not v["rejected"] else 0
     log("  pipeline graph: %d edges, %d paths, %d rejected, t=%.1fs" % (total, len(paths), len(v["rejected"]), time.time() - cx.t0))
+    if not panics:
+        # history phase: hidden per-kind state (caches) needs "fire, change the list, fire again"
+        hp = []
+        for kind, other in (("R", "A"), ("A", "R"), ("W", "R"), ("E", "R"), ("I", "W"), ("X", "R")):
+            hp += [(kind, other, p) for p in history_programs(kind, other)]
+        if quick:
+            hp = cx.rnd.sample(hp, 6000)
+        for kind, other in (("R", "A"), ("A", "R"), ("W", "R"), ("E", "R"), ("I", "W"), ("X", "R")):
+            sel = [p for k, o, p in hp if k == kind]
+            hc = pipe_consts([kind, other], 6, 3, 1, False)
+            cases = [{"id": "h%s%d" % (kind, i), "ops": p, "seed": 1} for i, p in enumerate(sel)]
+            rs = run_driver(cx.driver, "pipe", cases, cx.wd, tag="h" + kind)
+            cx.absorb(rs, cases)
+            for chunk in range(0, len(rs), 2000):
+                v = validate(cx, "Thist%s%d" % (kind, chunk), "TracePipeline", hc, rs[chunk:chunk + 2000], inv, {"op": "reset"})
+                pipe_verdicts(cx, v, rs[chunk:chunk + 2000], cases[chunk:chunk + 2000], pid)
+        cx.extra_cov["history_programs"] = len(hp)
+        log("  history programs (3 single-handler building calls x 2 firings, per event kind): %d, t=%.1fs" % (len(hp), time.time() - cx.t0))
     # random programs over the full palette of 12 handler types, longer histories, validated by TLC
     types = sorted(ALL_TYPES)
     big = pipe_consts(types, 16, 6, 3, panics)
